@@ -1195,21 +1195,25 @@ func familyLong(s *hlib.Suite, r *hlib.Rng, n int) {
 				continue
 			}
 			var b strings.Builder
-			fmt.Fprintf(&b, "%d %v\n", qf.Len(), qf.ColumnNames())
-			for _, nm := range qf.ColumnNames() {
-				v, err := qf.StringView(nm)
-				if err != nil {
-					fmt.Fprintf(&b, "view error %v", err)
-					continue
-				}
-				for i := 0; i < v.Len(); i++ {
-					if x := v.ItemAt(i); x == nil {
-						b.WriteString("nil|")
-					} else {
-						b.WriteString(strconv.Quote(*x) + "|")
+			if p, v := hlib.Recover(func() {
+				fmt.Fprintf(&b, "%d %v\n", qf.Len(), qf.ColumnNames())
+				for _, nm := range qf.ColumnNames() {
+					v, err := qf.StringView(nm)
+					if err != nil {
+						fmt.Fprintf(&b, "view error %v", err)
+						continue
 					}
+					for i := 0; i < v.Len(); i++ {
+						if x := v.ItemAt(i); x == nil {
+							b.WriteString("nil|")
+						} else {
+							b.WriteString(strconv.Quote(*x) + "|")
+						}
+					}
+					b.WriteString("\n")
 				}
-				b.WriteString("\n")
+			}); p {
+				fmt.Fprintf(&b, "reading the cells panicked: %v", v)
 			}
 			got := b.String()
 			if run == 0 {
@@ -1332,43 +1336,48 @@ func familyBigRound(s *hlib.Suite, r *hlib.Rng, n int) {
 			continue
 		}
 		bad := ""
-		if back.Len() != nrows || fmt.Sprint(back.ColumnNames()) != fmt.Sprint(names) {
-			bad = fmt.Sprintf("read back %d rows, columns %v; written %d rows, columns %v", back.Len(), back.ColumnNames(), nrows, names)
+		checkCells := func() {
+			if back.Len() != nrows || fmt.Sprint(back.ColumnNames()) != fmt.Sprint(names) {
+				bad = fmt.Sprintf("read back %d rows, columns %v; written %d rows, columns %v", back.Len(), back.ColumnNames(), nrows, names)
+			}
+			for _, nm := range names {
+				if bad != "" {
+					break
+				}
+				switch nm {
+				case "I":
+					v := back.MustIntView(nm)
+					for i := 0; i < nrows && bad == ""; i++ {
+						if v.ItemAt(i) != ints[i] {
+							bad = fmt.Sprintf("row %d of %s reads back as %d, written %d", i, nm, v.ItemAt(i), ints[i])
+						}
+					}
+				case "S":
+					v := back.MustStringView(nm)
+					for i := 0; i < nrows && bad == ""; i++ {
+						if x := v.ItemAt(i); x == nil || *x != strs[i] {
+							bad = fmt.Sprintf("row %d of %s reads back as %v, written %q", i, nm, hlib.OptStr(x), strs[i])
+						}
+					}
+				case "F":
+					v := back.MustFloatView(nm)
+					for i := 0; i < nrows && bad == ""; i++ {
+						if v.ItemAt(i) != flts[i] {
+							bad = fmt.Sprintf("row %d of %s reads back as %v, written %v", i, nm, v.ItemAt(i), flts[i])
+						}
+					}
+				default:
+					v := back.MustEnumView(nm)
+					for i := 0; i < nrows && bad == ""; i++ {
+						if x := v.ItemAt(i); x == nil || *x != *ens[i] {
+							bad = fmt.Sprintf("row %d of %s reads back as %v, written %q", i, nm, hlib.OptStr(x), *ens[i])
+						}
+					}
+				}
+			}
 		}
-		for _, nm := range names {
-			if bad != "" {
-				break
-			}
-			switch nm {
-			case "I":
-				v := back.MustIntView(nm)
-				for i := 0; i < nrows && bad == ""; i++ {
-					if v.ItemAt(i) != ints[i] {
-						bad = fmt.Sprintf("row %d of %s reads back as %d, written %d", i, nm, v.ItemAt(i), ints[i])
-					}
-				}
-			case "S":
-				v := back.MustStringView(nm)
-				for i := 0; i < nrows && bad == ""; i++ {
-					if x := v.ItemAt(i); x == nil || *x != strs[i] {
-						bad = fmt.Sprintf("row %d of %s reads back as %v, written %q", i, nm, hlib.OptStr(x), strs[i])
-					}
-				}
-			case "F":
-				v := back.MustFloatView(nm)
-				for i := 0; i < nrows && bad == ""; i++ {
-					if v.ItemAt(i) != flts[i] {
-						bad = fmt.Sprintf("row %d of %s reads back as %v, written %v", i, nm, v.ItemAt(i), flts[i])
-					}
-				}
-			default:
-				v := back.MustEnumView(nm)
-				for i := 0; i < nrows && bad == ""; i++ {
-					if x := v.ItemAt(i); x == nil || *x != *ens[i] {
-						bad = fmt.Sprintf("row %d of %s reads back as %v, written %q", i, nm, hlib.OptStr(x), *ens[i])
-					}
-				}
-			}
+		if p, v := hlib.Recover(checkCells); p {
+			bad = fmt.Sprintf("reading the cells of the frame that ReadCSV returned panicked: %v", v)
 		}
 		if bad != "" {
 			s.Fail(id, "round trip of a long frame: "+bad, desc, "csv-big-roundtrip")
